@@ -13,6 +13,8 @@ pub struct TxLog {
     lines: Vec<String>,
     meta_on: bool,
     pkts: Vec<TxPkt>,
+    /// token bytes of every NEW_TOKEN frame written while `on` (C14 scenario `tokflow`: the harness' issue ledger)
+    new_tokens: Vec<Vec<u8>>,
 }
 
 /// One packet built by this connection, as it went into the transmit buffer (C12/C13 oracles): where it lies in
@@ -53,6 +55,11 @@ impl Connection {
     /// Lines recorded since the last call
     pub fn verif_take_txlog(&mut self) -> Vec<String> {
         std::mem::take(&mut self.verif_txlog.lines)
+    }
+
+    /// Token bytes of the NEW_TOKEN frames written since the last call (needs `verif_txlog_enable`)
+    pub fn verif_take_new_tokens(&mut self) -> Vec<Vec<u8>> {
+        std::mem::take(&mut self.verif_txlog.new_tokens)
     }
 
     /// Start recording per-packet meta data (`verif_take_txpkts`)
@@ -111,6 +118,9 @@ impl Connection {
             Err(_) => line.push_str(" <empty>"),
             Ok(iter) => {
                 for f in iter {
+                    if let Ok(Frame::NewToken(t)) = &f {
+                        self.verif_txlog.new_tokens.push(t.token.to_vec());
+                    }
                     match f {
                         Ok(Frame::Padding) => padding += 1,
                         Ok(Frame::Crypto(c)) => line.push_str(&format!(" CRYPTO({},{})", c.offset, c.data.len())),
